@@ -6,6 +6,7 @@ PROP = Property(
     "C18", "proof",
     kani=[KaniUnit(
         crate="mithril-resource-pool",
+        jobs=10,
         attach=[(RP, "contracts/mithril-resource-pool/c18_resource_pool.rs", "verif_c18")],
         anchors=[(RP, "acquire_resource", None), (RP, "give_back_resource", None), (RP, "give_back_resource_pool_item", None),
                  (RP, "set_discriminant", None), (RP, "clear", None), (RP, "drop", "Drop for ResourcePoolItem")],
